@@ -12,7 +12,7 @@ from litedram.common import LiteDRAMNativePort
 from litedram.frontend.wishbone import LiteDRAMWishbone2Native, LiteDRAMNative2Wishbone
 
 from ..engine import Sim
-from ..agents import NativeMemSlave, NativeMaster, Violations, word_of, init_byte, RefMem
+from ..agents import stuck, NativeMemSlave, NativeMaster, Violations, word_of, init_byte, RefMem
 from .c07 import gen_pattern, gen_extra
 
 ID = "C10"
@@ -196,6 +196,8 @@ def run_n2w(scn):
     while cyc < cap:
         sim.step()
         cyc += 1
+        if not cyc & 63 and stuck(sim, cyc):
+            break       # no handshake anywhere for 20000 cycles: the run is stuck, do not spin to the cap
         if mas.idle():
             quiet += 1
             if quiet > 20:
@@ -314,6 +316,8 @@ def run(scn):
     while cyc < cap:
         sim.step()
         cyc += 1
+        if not cyc & 63 and stuck(sim, cyc):
+            break       # no handshake anywhere for 20000 cycles: the run is stuck, do not spin to the cap
         if mas.done() and mem.idle():
             quiet += 1
             if quiet > need_quiet:
